@@ -75,6 +75,28 @@ def grouping_frame(rep):
             bad.append(w.as_dict())
         common.structural(rep, '%s/%s/writes the tree only through group_tokens (and the Operator re-typing)' % (rep.prop, q),
                           q, not bad, {'writes': bad}, undecided_if_false=True)
+    # C03 "same values and types; only a `*`/operator token may be re-typed to Operator": a store to the type or the value
+    # of a token anywhere in the grouping engine, other than `.ttype = T.Operator`, is that clause broken in so many words
+    for q, node in sorted(fns.items()):
+        if not q.startswith('sqlparse.engine.grouping.') or '<locals>' in q.split('sqlparse.engine.grouping.', 1)[1].split('.', 1)[0]:
+            continue
+        bad = []
+        for n in ast.walk(node):
+            tgts = n.targets if isinstance(n, ast.Assign) else [n.target] if isinstance(n, (ast.AugAssign, ast.AnnAssign)) else []
+            for t in tgts:
+                for t1 in ([t] if not isinstance(t, (ast.Tuple, ast.List)) else t.elts):
+                    if isinstance(t1, ast.Attribute) and t1.attr in ('ttype', 'value'):
+                        val = getattr(n, 'value', None)
+                        if not (t1.attr == 'ttype' and isinstance(n, ast.Assign) and val is not None
+                                and ast.unparse(val) == 'T.Operator'):
+                            bad.append({'line': n.lineno, 'store': ast.unparse(n)[:120]})
+            if isinstance(n, ast.Call) and isinstance(n.func, ast.Name) and n.func.id == 'setattr' and len(n.args) >= 2 \
+                    and isinstance(n.args[1], ast.Constant) and n.args[1].value in ('ttype', 'value'):
+                bad.append({'line': n.lineno, 'store': ast.unparse(n)[:120]})
+        if '.<locals>.' in q:
+            continue        # (closures are walked with their enclosing pass)
+        common.structural(rep, '%s/%s/re-types a token only to Operator and rewrites no token value' % (rep.prop, q), q,
+                          not bad, {'stores': bad})
     # the re-typing store targets the matched token and only sets Operator
     q = 'sqlparse.engine.grouping.group_operator.<locals>.post'
     node = fns.get(q)
